@@ -1,10 +1,16 @@
-import MpgsModel.Lemmas.Unverified
+import MpgsModel.Lemmas.UnverifiedBytes
 import MpgsModel.Model.ToyAead
 /-!
 # C11 - no amplification, over whole runs of the server loop
 
-"The server never sends more to an address that has not completed the handshake than it has
-received from that address", at the level of datagrams and for every run:
+"The server never sends more bytes to an address that has not completed the handshake than it has
+received from that address", for every run of the loop model:
+
+* `C11_no_amplification` - **in bytes**: in any run from the empty server, the bytes of all
+  datagrams handed to the socket for an address that is not promoted in that run never exceed the
+  bytes of the datagrams queued from that address - whatever arrives from it or from anybody,
+  whatever the handlers do, for every clock, random stream, MTU and configuration, every AEAD and
+  all handshake externals (key sizes, signature sizes, padding);
 
 * `C11_unverified_budget` - in any run of the loop from the empty server, an address that is not
   promoted in that run (no `connect` event for it) is sent at most as many datagrams as it has sent
@@ -16,7 +22,11 @@ received from that address", at the level of datagrams and for every run:
   queues one SERVER_HELLO in its life, no longer than the hello it answers, and both travel in the
   same 26 bytes of framing.
 
-The sum in bytes over a run is what the monitor of the C11 check measures on the real loop.
+The byte potential (`Lemmas/UnverifiedBytes.lean`): what a half-open entry has queued, weighed as
+26 bytes of framing + payload per message; a datagram adds at most its own length to it (and
+nothing once the entry has a key: one hello per connection), a sweep takes out at least what it
+sends (CRC form: 24 + body, body = payloads + 2 for one message / 5 each for several).  The monitor
+of the C11 check measures the same sum on the real loop.
 -/
 namespace Mpgs.Server
 open Mpgs.Bytes Mpgs.Wire Mpgs.Conn
@@ -27,6 +37,14 @@ theorem C11_unverified_budget (sz : Sizes) (C : Crypto) (cfg : SCfg) (ins : List
     nSendTo a (runLoop sz C { cfg := cfg } ins).2 ≤ (ins.map (fun i => nHelloFrom a i.batch)).sum := by
   have h := runLoop_unv sz C { cfg := cfg } ins a kn_nil (by intro b e he; simp [pget] at he) rfl hnc
   have h0 : phip ({ cfg := cfg } : Srv).temps a = 0 := rfl
+  omega
+
+/-- **No amplification, in bytes, over whole runs.** -/
+theorem C11_no_amplification (sz : Sizes) (C : Crypto) (cfg : SCfg) (ins : List IterIn) (a : Addr)
+    (hnc : ∀ id tok, SEvent.connect id a tok ∉ (runLoop sz C { cfg := cfg } ins).2) :
+    bytesTo a (runLoop sz C { cfg := cfg } ins).2 ≤ (ins.map (fun i => bytesFrom a i.batch)).sum := by
+  have h := runLoop_bytes sz C { cfg := cfg } ins a kn_nil (by intro b e he; simp [pget] at he) rfl hnc
+  have h0 : psip ({ cfg := cfg } : Srv).temps a = 0 := rfl
   omega
 
 /-- **What a half-open connection sends**: `update()` of a connection that has not been promoted
@@ -85,6 +103,10 @@ def noConnect : List SEvent → Bool
   | _ :: t => noConnect t
 
 example : nSendTo (9, 9) exRun.2 = 1 ∧ nHelloFrom (9, 9) [exItem] = 1 ∧ noConnect exRun.2 = true := by
+  decide +kernel
+
+/-- the same run in bytes: 29 in (20 header + 2 + 3 payload + 4 CRC), 27 out (the toy reply is one byte) -/
+example : bytesTo (9, 9) exRun.2 = 27 ∧ bytesFrom (9, 9) [exItem] = 29 := by
   decide +kernel
 
 end Mpgs.Server
